@@ -1,3 +1,4 @@
+import Beetswap.Proofs.ConnHandler
 import Beetswap.Proofs.Server
 /-!
 # C06 — Server answers every live want once the block is available
@@ -63,5 +64,94 @@ theorem reconnect_fresh (s : State) (p : Nat) :
 /-- Non-vacuity: a state in which a peer wants a queued block satisfies the invariant. -/
 example : Inv (incoming (connect {} 1) 1 false [⟨some 5, false⟩]) :=
   Proofs.Server.inv_step _ 0 (.msg 1 false [⟨some 5, false⟩]) (Proofs.Server.inv_step _ 0 (.connect 1) Proofs.Server.inv_init)
+
+
+/-! ### The connection handler (`Model/ServerSink`, `Model/ConnHandler`): from `QueueOutgoingMessages` to the stream
+
+What the behaviour dispatches is handed to the server half of a connection handler. The theorems
+below follow every block from there to the frame it is written in, for every behaviour of the
+sink. The handler traces recorded from real swarms (with the sink's answers) are replayed through
+this model on every run (`bsdriver cvalidate`). -/
+section
+open Beetswap.Proto Beetswap.Frame Beetswap.ServerSink Beetswap.ServerHandler Beetswap.Proofs.ServerSink
+
+/-- Conservation: at any point of any run, with any behaviour of the sink, the blocks taken out
+of the pending list so far (in the order taken) followed by the blocks still pending are exactly
+the blocks that were pending at the start followed by the blocks handed over since, in order:
+nothing is duplicated, reordered or invented, and a block leaves the handler only inside a frame
+that was written or whose `start_send` failed. -/
+theorem run_conservation (h : H) (ins : List In) :
+    takenOf (run h ins).2 ++ pendingOf (run h ins).1 = pendingOf h ++ queuedOf ins :=
+  Proofs.ServerSink.run_conservation h ins
+
+/-- Blocks are lost only when `start_send` fails: if the sink accepts every frame, whatever the
+flushes answer, every block taken was written. -/
+theorem nothing_dropped_without_send_error (h : H) (ins : List In)
+    (hok : ∀ env, In.poll env ∈ ins → ∀ a ∈ env, a.sendOk = true) :
+    droppedOf (run h ins).2 = [] ∧ writtenOf (run h ins).2 = takenOf (run h ins).2 :=
+  Proofs.ServerSink.nothing_dropped_without_send_error h ins hok
+
+/-- While the previous frame is not flushed (`poll_flush` is `Pending`) nothing is taken from the
+pending list: state unchanged, no effect. -/
+theorem pending_flush_takes_nothing (h : H) (sid : Nat) (a : Ans) (env : List Ans)
+    (hs : h.sink = .ready sid) (ha : a.flush = .pending) :
+    poll h (a :: env) = (h, .pending, []) :=
+  Proofs.ServerSink.pending_flush_takes_nothing h sid a env hs ha
+
+/-- A failed flush of the previous frame takes nothing either: the stream is dropped, a new one is
+requested and every pending block is still pending. -/
+theorem failed_flush_keeps_blocks (h : H) (sid : Nat) (p : List Block) (a : Ans) (env : List Ans)
+    (hs : h.sink = .ready sid) (hp : h.pending = some p) (ha : a.flush = .err) :
+    poll h (a :: env) = ({ pending := some p, sink := .requested }, .openSubstream, [.closed sid]) :=
+  Proofs.ServerSink.failed_flush_keeps_blocks h sid p a env hs hp ha
+
+/-- Fault-free delivery: with a stream and a sink that accepts and flushes everything, one `poll`
+with enough answers writes every pending block, in order, and leaves nothing pending. -/
+theorem faultfree_writes_all (h : H) (sid : Nat) (p : List Block) (n : Nat)
+    (hs : h.sink = .ready sid) (hp : h.pending = some p) (hn : p.length + 1 ≤ n) :
+    let r := poll h (List.replicate n { flush := .ok, sendOk := true })
+    r.1 = { pending := none, sink := .ready sid } ∧ r.2.1 = .pending ∧
+    writtenOf r.2.2 = p ∧ droppedOf r.2.2 = [] :=
+  Proofs.ServerSink.faultfree_writes_all h sid p n hs hp hn
+
+/-- … and from scratch: queue, poll (a substream is requested), the stream arrives, poll. -/
+theorem faultfree_run (bs : List Block) (sid : Nat) (n : Nat) (hn : bs.length + 1 ≤ n) :
+    let r := run {} [.queue bs, .poll [], .setStream sid, .poll (List.replicate n { flush := .ok, sendOk := true })]
+    r.1 = { pending := none, sink := .ready sid } ∧ writtenOf r.2 = bs ∧
+    r.2.head? = some .openSubstream :=
+  Proofs.ServerSink.faultfree_run bs sid n hn
+
+/-- A frame is written only on the stream that is current when `poll` is called. -/
+theorem wrote_on_current_stream (h : H) (env : List Ans) (sid : Nat) (m : Message)
+    (hm : Out.wrote sid m ∈ (poll h env).2.2) : h.sink = .ready sid :=
+  Proofs.ServerSink.wrote_on_current_stream h env sid m hm
+
+end
+
+section
+open Beetswap.Proto Beetswap.ConnHandler Beetswap.Proofs.ConnHandler
+
+/-- The same for the server half. -/
+theorem server_projection (h : CH) (ins : List In) :
+    (run h ins).1.server = (ServerSink.run h.server (serverIns h ins)).1 ∧
+    serverOutsOf (run h ins).2 = (ServerSink.run h.server (serverIns h ins)).2 :=
+  Proofs.ConnHandler.server_projection h ins
+
+theorem queued_reach_server (h : CH) (ins : List In) :
+    ServerSink.queuedOf (serverIns h ins) = queuedBlocks ins :=
+  Proofs.ConnHandler.queued_reach_server h ins
+
+/-- Conservation of blocks for the whole connection handler. -/
+theorem blocks_conserved (ins : List In) :
+    ServerSink.takenOf (serverOutsOf (run {} ins).2) ++ ((run {} ins).1.server.pending.getD []) =
+      ServerSink.queuedOf (serverIns {} ins) :=
+  Proofs.ConnHandler.blocks_conserved ins
+
+end
+
+/-- Non-vacuity: two blocks queued, stream granted, sink healthy: both are written, in order. -/
+example : ServerSink.writtenOf (ServerSink.run {} [.queue [⟨[1], [2]⟩, ⟨[3], [4]⟩], .poll [], .setStream 0,
+    .poll (List.replicate 3 { flush := .ok, sendOk := true })]).2 = [⟨[1], [2]⟩, ⟨[3], [4]⟩] :=
+  (Proofs.ServerSink.faultfree_run [⟨[1], [2]⟩, ⟨[3], [4]⟩] 0 3 (by decide)).2.1
 
 end Beetswap.Props.C06
